@@ -1443,6 +1443,31 @@ impl<'s, K: Kind<X>, X: Item> VecExec<'s, K, X> {
                 self.bagdrop_since_pull = true;
                 true
             }
+            SwapTwin => {
+                let it = match &mut self.form {
+                    Form::It(it) => it,
+                    _ => return false,
+                };
+                let (t, tdq, tf, tb) = match &mut self.twin {
+                    Some(x) => (&mut x.0, &mut x.1, &mut x.2, &mut x.3),
+                    None => return false,
+                };
+                self.st.probes[P_SWAP_TWIN] += 1;
+                // both iterator values change address and each old address now holds the other
+                // iterator: an iterator that cached a pointer into itself reads the wrong elements
+                std::mem::swap(it, t);
+                std::mem::swap(&mut self.dq, tdq);
+                std::mem::swap(&mut self.front, tf);
+                std::mem::swap(&mut self.back, tb);
+                for g in self.dq.iter() {
+                    g.set_owner(OWN_MAIN);
+                }
+                for g in tdq.iter() {
+                    g.set_owner(OWN_TWIN);
+                }
+                self.check_len("mem::swap with the twin iterator");
+                true
+            }
             TwinMake => {
                 if !matches!(self.form, Form::It(_)) {
                     return false;
@@ -1487,7 +1512,51 @@ impl<'s, K: Kind<X>, X: Item> VecExec<'s, K, X> {
                     Form::It(it) => it,
                     _ => return false,
                 };
-                if op.a % 3 == 1 {
+                if op.a % 4 == 3 {
+                    // Default probe: an iterator made by `Default` owns whatever it created; every
+                    // such element must be yielded or destroyed like any other
+                    let (r, _) = guard(0, 0, None, || crate::probe::try_default_iter::<K::It>());
+                    match r {
+                        Ok(None) => {}
+                        Ok(Some(mut d)) => {
+                            self.st.probes[P_DEFAULT_PROBE_ACTIVE] += 1;
+                            let fresh = tok::fresh_in_op();
+                            for id in &fresh {
+                                tok::set_owner(*id, OWN_CLONE);
+                            }
+                            let l = guard_nopanic("len of a default iterator", 0, 0, || d.len()).unwrap_or(0);
+                            let mut yielded: Vec<X> = Vec::new();
+                            let _ = guard_nopanic("draining a default iterator", 0, 0, || {
+                                for x in d.by_ref() {
+                                    yielded.push(x);
+                                    if yielded.len() > n + 2 {
+                                        break;
+                                    }
+                                }
+                            });
+                            if yielded.len() != l {
+                                tok::raise(V6_LENGTH, format!("a default-constructed iterator reported len() = {} and yielded {} elements", l, yielded.len()));
+                                std::mem::forget(yielded);
+                                std::mem::forget(d);
+                                return true;
+                            }
+                            let _ = guard_nopanic("drop of a default iterator", m(OWN_CLONE), 0, move || {
+                                drop(d);
+                                drop(yielded);
+                            });
+                            for id in fresh {
+                                if !tok::gone(id) {
+                                    tok::raise(V7_LEAK, format!("a default-constructed iterator created element id {} and neither yielded nor dropped it", id));
+                                    break;
+                                }
+                            }
+                        }
+                        Err(t) => self.unexpected("Default for the iterator", t),
+                    }
+                    return true;
+                }
+                let sel = op.a % 4;
+                if sel == 1 {
                     // ordering probe: comparing the iterator with itself may only touch live elements
                     let (r, _) = guard(0, m(OWN_MAIN), None, || crate::probe::try_cmp_iter::<K::It>(it));
                     match r {
@@ -1498,7 +1567,7 @@ impl<'s, K: Kind<X>, X: Item> VecExec<'s, K, X> {
                     self.check_len("partial_cmp probe");
                     return true;
                 }
-                if op.a % 3 == 2 {
+                if sel == 2 {
                     // slice-view probe: an `AsRef<[T]>` view of the iterator must show exactly the
                     // remaining elements, in order
                     let (r, _) = guard(0, 0, None, || crate::probe::try_slice_iter::<K::It>(it));
@@ -2146,7 +2215,11 @@ impl<'s, K: Kind<X>, X: Item> VecExec<'s, K, X> {
                 self.st.probes[P_CLOSURE_PANIC_FIRED] += 1;
                 // R-unwind, closure panic: the iterator survives; everything the callbacks were
                 // shown has left it, nothing else may be lost
-                if !self.reconcile_interrupted(&planned, back, len, last_seen_pos, false, what) {
+                // a callback that is shown the element by reference may have panicked while the
+                // element was still (or again) inside the iterator: only what came before it is
+                // known to have left
+                let gone = if adapt_by_ref(which) { last_seen_pos.saturating_sub(1) } else { last_seen_pos };
+                if !self.reconcile_interrupted(&planned, back, len, gone, false, what) {
                     std::mem::forget(kept);
                     return true;
                 }
